@@ -250,6 +250,7 @@ CHECKS["C11"] = {
 }
 
 CLIP = [G + "cli_proc.go"] + CLI
+C12F_LATE = [G + "c12_client.go"] + CLIP
 CHECKS["C10"] = {
     "technique": "real fMP4 stream/track processors, time converter and routine pool as engine threads on harness-built fragments with symbolic base times, durations and PTS offsets",
     "bounds": {"quick": {"tracks": "H264 video + optional Opus audio at 48000/44100; run.cli.fmp4.codecs: H265 / VP9 / AV1 video + optional MPEG-4 audio", "segments x fragments x samples": "1 x 1..2 x 1..2", "base times": "[0, 2^40]", "durations": "[0, 2^20] / [0, 2^16]", "PTS offsets": "[-2^16, 2^16]",
@@ -270,6 +271,9 @@ CHECKS["C10"] = {
 CHECKS["C10"]["runs"].append({"name": "run.cli.fmp4.codecs", "files": CLIP, "fn": "VerifH_C10_fmp4", "workers": 16, "params": {"DATETIME": 0, "CODECS": 1},
                               "params_quick": {"MAXSEGS": 1, "MAXFRAGS": 2, "MAXSAMPLES": 2}, "params_thorough": {"MAXSEGS": 2, "MAXFRAGS": 2, "MAXSAMPLES": 2},
                               "reach": ["ran"], "budget_quick": 600, "budget_thorough": 7200, "qtimeout": 60000})
+CHECKS["C10"]["runs"].append({"name": "run.cli.rendition", "files": [G + "c10_rendition.go"] + C12F_LATE, "fn": "VerifH_C10_rendition", "workers": 16,
+                              "params_quick": {"MAXSEGS": 2, "BASEBITS": 30}, "params_thorough": {"MAXSEGS": 3, "BASEBITS": 40}, "reach": ["ran", "end"],
+                              "budget_quick": 600, "budget_thorough": 7200, "qtimeout": 60000, "replay_timeout": 120})
 CHECKS["C13"] = {
     "technique": "the same real client stages on well-formed-but-unexpected parse results (every fMP4 codec kind, time scale 0, track-id permutations, empty fragments, absurd counts and values); engine panic / deadlock checks are the assertion",
     "bounds": {"quick": {"focus groups": "codec kinds (8) alone or beside video; time scales {90000,0,1,2^32-1}; init/fragment track ids in 1..4; 10..11 tracks; 0..2 fragments with/without tracks and samples",
@@ -298,7 +302,7 @@ CHECKS["C12"] = {
     "assumptions": CHECKS["C10"]["assumptions"] + ["net/http replaced by a scripted responder (goroutines inside net/http are outside the model)", "cooperative scheduler + bounded symbolic preemption at synchronisation points"],
     "outside": ["MPEG-TS processors beyond the back-pressure run", "live playlists in the whole-client runs (the Low-Latency downloader loop has its own run) and pacing sleeps (time.After fires immediately)", "goroutines inside net/http"],
     "runs": [c12run("conc.client.media", 0, 1, 2), c12run("conc.client.multivariant", 1, 1, 2),
-             {"name": "conc.client.lowlatency", "files": [G + "c11_fetch.go"] + C12F, "fn": "VerifH_C12_lowlatency", "workers": 8, "reach": ["stalled", "end"], "replay_timeout": 120}],
+             {"name": "conc.client.lowlatency", "files": [G + "c12_lowlat.go", G + "c11_fetch.go"] + C12F, "fn": "VerifH_C12_lowlatency", "workers": 8, "reach": ["stalled", "end"], "replay_timeout": 120}],
 }
 
 C09F = [G + "c09_cosim.go", G + "c12_client.go"] + CLIP + [G + "mux_stub_findcompat.go"]
